@@ -799,12 +799,12 @@ PPL::Grid::is_universe() const {
       return false;
     }
   }
-#ifndef NDEBUG
+  // All the lines of the universe are included: the grid is the universe
+  // if and only if the origin is included too (an inconsistent congruence
+  // with no variables, such as 0 = 1 (mod 2), satisfies all the lines).
   Linear_Expression expr;
   expr.set_space_dimension(space_dim);
-  PPL_ASSERT(con_sys.satisfies_all_congruences(grid_point(expr)));
-#endif
-  return true;
+  return con_sys.satisfies_all_congruences(grid_point(expr));
 }
 
 bool
